@@ -12,7 +12,7 @@ prop(
     "(wire image must be bit-identical), (2) recovered through PacketReader -> CipherPacket::decrypt_{long,short}_packet (production pn decoder ArcRcvdJournal::decode_pn for small numbers) "
     "and compared field by field and byte by byte, (3) attacked: every single-bit flip (all bits < 400 bytes and in the thorough tier, else header+pn+sample+tag bits and 256 random payload bits), "
     "pn contexts reconstructing pn+-1 / pn+-window, other direction's / other connection's / other level's / next-generation keys, authentic packets with reserved bits set; none may ever be delivered. "
-    "Key-update scripts check both phases round-trip across update(), reordered old-phase packets before phase_out, rejection after it, and the production-like sequence in which nobody calls phase_out.",
+    "A modified packet must be dropped silently: a connection error raised before authentication (reserved-bit check ahead of the AEAD) is flagged too. Key-update scripts check both phases round-trip across update(), reordered old-phase packets before phase_out, rejection after it, and the production-like sequence in which nobody calls phase_out (known finding C06.keyupdate.second-update:old-keys-never-retired). Coalesced Initial+Handshake+1-RTT datagrams are recovered packet by packet.",
     level_note="Trusted: rustls/ring (AEAD, header-protection mask, key schedule) and the 60-line independent opener/sealer. Keys of a failing case are not reproducible bit for bit "
     "(TLS randomness); replays re-run the same case shape with fresh keys. A corrupted header that panics the header parser is C03's finding and is only counted here.",
     design_ref="DESIGN.md §3 C06",
